@@ -2,3 +2,4 @@
 pub use vh_common::*;
 pub mod zddmodel;
 pub mod eng;
+pub mod seqgen;
